@@ -77,7 +77,7 @@ def derivation_tree(g, dump, tokens):
 def make_grammars(tier, seed):
     rng = random.Random(seed * 7919 + 1)
     gs = [g for g in GR.corpus() if not g.meta and not g.tmeta]
-    n = 500 if tier == "quick" else 3000
+    n = 220 if tier == "quick" else 3000
     for _ in range(n):
         gs.append(GR.random_grammar(rng))
     for _ in range(n):
